@@ -1175,7 +1175,7 @@ int poll(struct pollfd *fds, nfds_t n, int timeout_ms) {
     // ambient: a signal handler runs while the library waits inside a blocking call (data-path calls only: an interrupted
     // connection set-up leaves a half-made connection behind whose fate is the application's own business)
     if (K->p_eintr > 0 && timeout_ms != 0 && lib_ctx() && !G->stopping && cur()->api_name && (!strcmp(cur()->api_name, "xcm_send") || !strcmp(cur()->api_name, "xcm_receive") || !strcmp(cur()->api_name, "xcm_finish")) &&
-        G->r_fault.chance(K->p_eintr)) { G->count("fault.eintr_wait"); G->kmut++; G->logf("poll() = EINTR [ambient]"); KERR(C_POLL, EINTR); }
+        G->r_fault.chance(K->p_eintr)) { G->count("fault.eintr_wait"); G->logf("poll() = EINTR [ambient]"); KERR(C_POLL, EINTR); }   // (no kernel state changes: the spin bookkeeping carries on)
     // unwinding at the end of a run: every wait is interrupted, whether or not something is ready, so that
     // library-internal wait loops (blocking calls) return to the harness
     if (G->stopping && timeout_ms != 0) KERR(C_POLL, EINTR);
